@@ -206,6 +206,9 @@ def check_tiling(rep, rule, run: Run, D: Blocks, fi):
             rep.discharged(rule, fi, roles0["zero"][0]["node"],
                            f"the matrix is pre-filled with {sym.show(D.base)[:40]} and the diagonal-to-diagonal corner is "
                            f"written explicitly (position checked below)")
+        elif unmodelled_in(D.base) or leftover_placeholders(D.base) or run.interp.unmodelled or run.interp.lossy:
+            # a value the run could not determine (a loop-carried placeholder, an unmodelled store): nothing to compare
+            rep.unmodelled(rule, fi, fi.node, f"the remainder of the cost matrix could not be determined ({sym.show(D.base)[:60]})")
         else:
             rep.refuted(rule, fi, fi.node, f"untouched remainder (diagonal–diagonal block) is {sym.show(D.base)}, not 0",
                         construct=f"base of cost matrix in {fi.qualname}")
